@@ -328,6 +328,117 @@ Section Sib.
       by (apply put_port_sizes_puts; exists la; split; [exact Ela|reflexivity]).
     rewrite Pa. cbn [bind]. exact H2.
   Qed.
+
+  (* ---------- any sequence of such swaps ---------- *)
+  Lemma compile_children_app l1 l2 children conns : forall pm acc,
+      compile_children rec (l1 ++ l2) children conns pm acc =
+      match compile_children rec l1 children conns pm acc with
+      | Ok (pmA, kA) => compile_children rec l2 children conns pmA (rev kA)
+      | ECompile => ECompile | EPreprocess => EPreprocess | ECapture => ECapture | EInternal k => EInternal k | EFuel => EFuel
+      end.
+  Proof.
+    induction l1 as [|n l1 IH]; intros pm acc; cbn [app compile_children].
+    - rewrite rev_involutive. reflexivity.
+    - destruct (of_opt (EInternal 2) (find_child n children)) as [c| | | | |]; cbn [bind]; try reflexivity.
+      destruct (of_opt (EInternal 8) (lookup n (snd pm))) as [ins| | | | |]; cbn [bind]; try reflexivity.
+      destruct (rec c (dict_norm ins)) as [t| | | | |]; cbn [bind]; try reflexivity.
+      destruct (put_port_sizes (conns_from (Some n) conns) (ct_ports t) pm) as [pm'| | | | |]; cbn [bind]; try reflexivity.
+      apply IH.
+  Qed.
+
+  (* processing orders connected by swaps of neighbouring independent children *)
+  Inductive reorder (conns : list (endpoint * endpoint)) : list string -> list string -> Prop :=
+  | ro_refl l : reorder conns l l
+  | ro_swap pre a b post : no_wire conns a b -> no_wire conns b a -> targets_apart conns a b ->
+                           reorder conns (pre ++ a :: b :: post) (pre ++ b :: a :: post)
+  | ro_trans l1 l2 l3 : reorder conns l1 l2 -> reorder conns l2 l3 -> reorder conns l1 l3.
+
+  (* the same compiled children, possibly in another order and with another listing of their stored inputs *)
+  Definition kids_equiv (k1 k2 : list (ctree D)) : Prop := exists l, Permutation k1 l /\ Forall2 tree_sim l k2.
+
+  Lemma tree_sim_trans t1 t2 t3 : tree_sim t1 t2 -> tree_sim t2 t3 -> tree_sim t1 t3.
+  Proof. intros [i1 E1] [i2 E2]. subst. exists i2. destruct t1; reflexivity. Qed.
+
+  Lemma Forall2_tree_sim_refl l : Forall2 tree_sim l l.
+  Proof. induction l; constructor; [apply tree_sim_refl|assumption]. Qed.
+
+  Lemma Forall2_tree_sim_trans l1 l2 l3 : Forall2 tree_sim l1 l2 -> Forall2 tree_sim l2 l3 -> Forall2 tree_sim l1 l3.
+  Proof.
+    intro H. revert l3. induction H as [|a b la lb Hab _ IH]; intros l3 H23; inversion H23; subst; constructor.
+    - eapply tree_sim_trans; eassumption.
+    - apply IH. assumption.
+  Qed.
+
+  (* a permutation can be pushed through a pairwise relation *)
+  Lemma perm_through_forall2 (l1 l2 l3 : list (ctree D)) :
+    Forall2 tree_sim l1 l2 -> Permutation l2 l3 -> exists l, Permutation l1 l /\ Forall2 tree_sim l l3.
+  Proof.
+    intros F P. revert l1 F. induction P as [|x l2 l3 P IH|x y l2|l2 l3 l4 P1 IH1 P2 IH2]; intros l1 F.
+    - inversion F; subst. exists []. split; constructor.
+    - inversion F as [|a ? la ? Ha Fa]; subst. destruct (IH la Fa) as [l [Pl Fl]]. exists (a :: l). split; [constructor; exact Pl|constructor; assumption].
+    - inversion F as [|a ? la ? Ha Fa]; subst. inversion Fa as [|b ? lb ? Hb Fb]; subst.
+      exists (b :: a :: lb). split; [apply perm_swap|]. constructor; [assumption|constructor; assumption].
+    - destruct (IH1 l1 F) as [l [Pl Fl]]. destruct (IH2 l Fl) as [l' [Pl' Fl']]. exists l'. split; [eapply Permutation_trans; eassumption|exact Fl'].
+  Qed.
+
+  Lemma kids_equiv_trans k1 k2 k3 : kids_equiv k1 k2 -> kids_equiv k2 k3 -> kids_equiv k1 k3.
+  Proof.
+    intros [l [P1 F1]] [l' [P2 F2]]. destruct (perm_through_forall2 l k2 l' F1 P2) as [m [Pm Fm]].
+    exists m. split; [eapply Permutation_trans; eassumption|eapply Forall2_tree_sim_trans; eassumption].
+  Qed.
+
+  Lemma pm_rel_trans p1 p2 p3 : pm_rel p1 p2 -> pm_rel p2 p3 -> pm_rel p1 p3.
+  Proof.
+    assert (ST : forall a b c : list (string * D), env_sim a b -> env_sim b c -> env_sim a c).
+    { intros a b c (L1 & K1 & V1) (L2 & K2 & V2). split; [|split].
+      - intro k. rewrite L1. apply L2.
+      - intro k. rewrite K1. apply K2.
+      - intro v. rewrite V1. apply V2. }
+    intros (A1 & B1 & C1) (A2 & B2 & C2). split; [eapply ST; eassumption|split; [congruence|]].
+    intro c. specialize (C1 c). specialize (C2 c).
+    destruct (lookup c (snd p1)), (lookup c (snd p2)), (lookup c (snd p3)); cbn in *; try contradiction; try exact I.
+    eapply ST; eassumption.
+  Qed.
+
+  Lemma compile_children_rel' names children conns pm pm' acc pm1 kids :
+      pm_rel pm pm' -> compile_children rec names children conns pm acc = Ok (pm1, kids) ->
+      exists pm2 kids2, compile_children rec names children conns pm' acc = Ok (pm2, kids2)
+                        /\ pm_rel pm1 pm2 /\ Forall2 tree_sim kids kids2.
+  Proof.
+    intros R H. destruct (compile_children_rel names children conns pm pm' acc acc pm1 kids R H) as [pm2 [new [new' [E1 [H2 [R2 F]]]]]].
+    exists pm2, (rev acc ++ new')%list. split; [exact H2|]. split; [exact R2|]. subst kids.
+    apply Forall2_app; [apply Forall2_tree_sim_refl|exact F].
+  Qed.
+
+  Theorem compile_children_reorder conns names names' :
+    reorder conns names names' ->
+    forall children pm pm' acc pm1 kids,
+      pm_rel pm pm' ->
+      compile_children rec names children conns pm acc = Ok (pm1, kids) ->
+      exists pm2 kids2, compile_children rec names' children conns pm' acc = Ok (pm2, kids2)
+                        /\ pm_rel pm1 pm2 /\ kids_equiv kids kids2.
+  Proof.
+    induction 1 as [l|pre a b post Nab Nba Ap|l1 l2 l3 Ro1 IH1 Ro2 IH2]; intros children pm pm' acc pm1 kids R H.
+    - destruct (compile_children_rel' l children conns pm pm' acc pm1 kids R H) as [pm2 [kids2 [H2 [R2 F]]]].
+      exists pm2, kids2. split; [exact H2|]. split; [exact R2|]. exists kids. split; [apply Permutation_refl|exact F].
+    - (* the prefix is processed as it was; then the swap; then the other listing of the map *)
+      rewrite compile_children_app in H.
+      destruct (compile_children rec pre children conns pm acc) as [[pmA kA]| | | | |] eqn:EA; try discriminate.
+      destruct (compile_children_swap a b post children conns pmA (rev kA) pm1 kids Nab Nba Ap H)
+        as [ta [tb [rk [rk' [pmS [E1 [HS [FS RS]]]]]]]].
+      rewrite rev_involutive in E1, HS.
+      assert (HS' : compile_children rec (pre ++ b :: a :: post) children conns pm acc = Ok (pmS, (kA ++ tb :: ta :: rk')%list))
+        by (rewrite compile_children_app, EA; exact HS).
+      destruct (compile_children_rel' _ children conns pm pm' acc _ _ R HS') as [pm2 [kids2 [H2 [R2 F2]]]].
+      exists pm2, kids2. split; [exact H2|]. split; [eapply pm_rel_trans; eassumption|].
+      subst kids. exists (kA ++ tb :: ta :: rk)%list. split.
+      + apply Permutation_app_head. apply perm_swap.
+      + eapply Forall2_tree_sim_trans; [|exact F2].
+        apply Forall2_app; [apply Forall2_tree_sim_refl|]. constructor; [apply tree_sim_refl|]. constructor; [apply tree_sim_refl|exact FS].
+    - destruct (IH1 children pm pm acc pm1 kids (pm_rel_refl pm) H) as [pmM [kM [HM [RM KM]]]].
+      destruct (IH2 children pm pm' acc pmM kM R HM) as [pm2 [k2 [H2 [R2 K2]]]].
+      exists pm2, k2. split; [exact H2|]. split; [eapply pm_rel_trans; eassumption|eapply kids_equiv_trans; eassumption].
+  Qed.
 End Sib.
 
 (* the traversal itself is such a [rec] (InputsOrderFacts.go_sim): for the compile model, two neighbouring children that are
@@ -344,4 +455,20 @@ Theorem go_children_swap (D : Type) (ev : list (string * D) -> expr -> result D)
 Proof.
   intros Hev fuel. apply compile_children_swap.
   intros c ins ins' t S H. eapply go_sim; eassumption.
+Qed.
+
+(* ... for the traversal itself: processing orders connected by swaps of neighbouring independent children give the same
+   compiled children (as a multiset, up to the listing of their stored inputs) and an equivalent parameter map *)
+Theorem go_children_reorder (D : Type) (ev : list (string * D) -> expr -> result D) (statusD : D -> D -> cstatus) (fvD : D -> list string) :
+  (forall env env' e, (forall k, lookup k env = lookup k env') -> ev env e = ev env' e) ->
+  forall fuel conns names names',
+    reorder conns names names' ->
+    forall children pm acc pm1 kids,
+      compile_children (go ev statusD fvD fuel) names children conns pm acc = Ok (pm1, kids) ->
+      exists pm2 kids2, compile_children (go ev statusD fvD fuel) names' children conns pm acc = Ok (pm2, kids2)
+                        /\ pm_rel D pm1 pm2 /\ kids_equiv D kids kids2.
+Proof.
+  intros Hev fuel conns names names' Ro children pm acc pm1 kids H.
+  eapply compile_children_reorder; [|exact Ro|apply pm_rel_refl|exact H].
+  intros c ins ins' t S Hc. eapply go_sim; eassumption.
 Qed.
